@@ -45,6 +45,25 @@ structure FloatOps (F : Type) where
   gt : F → F → Bool
   ge : F → F → Bool
 
+/-- a place where the library sets the floating-point control word (Generated/FpEnv.lean, regenerated on every run) -/
+structure FpWrite where
+  file : String
+  function : String
+  /-- "mxcsr" (`_mm_setcsr`), "initial-mxcsr-slot" (the MXCSR a new coroutine starts with), "fesetround" -/
+  kind : String
+  value : Nat
+deriving DecidableEq, Repr
+
+/-- The bits of MXCSR that change the VALUE of a double computation: rounding control (bits 13-14), flush-to-zero (15),
+    denormals-are-zero (6).  The other bits are exception masks (7-12: which conditions trap) and sticky flags (0-5). -/
+def mxcsrValueBits : Nat := 0xE040
+
+/-- the write leaves the arithmetic that every thread starts with: round to nearest, subnormals kept -/
+def FpWrite.valuePreserving (w : FpWrite) : Bool :=
+  if w.kind == "mxcsr" || w.kind == "initial-mxcsr-slot" then w.value &&& mxcsrValueBits == 0
+  else if w.kind == "fesetround" then w.value == 0
+  else false
+
 /-! ### Classification, keyed by variable name AND scope (function).  A variable that is not listed makes the
     theorems of Props/C15.lean fail, so a newly added static has to be looked at. -/
 
